@@ -60,11 +60,34 @@ static std::optional<Failure> check_absent(Run &R, const Bytes &label) {
     return std::nullopt;
 }
 
+// kind 3: a sequence of lookups (row indexes; negative = an absent label stored in `labels`): every answer is the CSV's,
+// whatever was looked up before (the table has no memory)
+static int want_of(const Bytes &l) { const Bytes *c = T.puny.find(l); return c ? C->tld_type[C->idx(*c)] : -C->E_TLD_INVALID; }
+static std::optional<Failure> check_seq(Run &R, const std::vector<Bytes> &labels) {
+    Case cs; cs.i("kind", 3); std::string j; for (auto &l : labels) { if (!j.empty()) j += ","; j += hexs(l); } cs.s("seq", j); g_case = cs.str();
+    std::string sofar;
+    for (size_t i = 0; i < labels.size(); i++) {
+        const Bytes &l = labels[i]; if (l.empty() || l.find('\0') != Bytes::npos) continue;
+        const Bytes *c = T.puny.find(l); if (c && C->idx(*c) < 0) continue;
+        int want = want_of(l), got = part0(A, TB, VP_TLD, l); R.eval();
+        if (got != want) return Failure{"lookup-depends-on-earlier-lookups", cs.str(), "is_tld('" + show(l) + "') = " + std::to_string(got) + " after looking up [" + sofar + "], the CSV says " + std::to_string(want)};
+        sofar += (sofar.empty() ? "'" : ", '") + show(l) + "'";
+    }
+    R.nontrivial(hashs(j, 3)); R.count("lookup-sequence");
+    return std::nullopt;
+}
+
 static void stage_rows(Run &R) {
     for (size_t i = 0; i < T.puny.rows.size(); i++) {
         if ((int) (i % R.a.nworkers) != R.a.worker) continue;
         auto f = check_row(R, i); if (f && !R.fail(*f)) return;
         const Bytes &t = T.puny.rows[i].domain;
+        // rows that are a prefix / suffix / inner part of this row, looked up right after it (and the other way round)
+        for (size_t a = 0; a < t.size(); a++) for (size_t n = 1; a + n <= t.size(); n++) { if (n == t.size()) continue; Bytes u = t.substr(a, n); if (!T.puny.find(u)) continue;
+            auto g = check_seq(R, {t, u, t}); if (g && !R.fail(*g)) return; g = check_seq(R, {u, t, u}); if (g && !R.fail(*g)) return; }
+        // neighbours in table order, both directions, and the far ends
+        { const auto &rows = T.puny.rows; size_t N = rows.size();
+          auto g = check_seq(R, {t, rows[(i + 1) % N].domain, t, rows[(i + N - 1) % N].domain, t, rows[0].domain, t, rows[N - 1].domain, "zzzz", t, "a", t}); if (g && !R.fail(*g)) return; }
         for (size_t n = 1; n < t.size(); n++) { auto g = check_absent(R, t.substr(0, n)); if (g && !R.fail(*g)) return; g = check_absent(R, t.substr(n)); if (g && !R.fail(*g)) return; }
         // look-alikes: one byte of the row changed by one bit (case bit of a non-letter, high bit, low bits), or replaced by a control / space
         for (size_t n = 0; n < t.size(); n++) for (int bit : {0x20, 0x80, 0x40, 0x01, 0x10}) { Bytes u = t; u[n] = (char) (u[n] ^ bit); if (u[n] == 0) continue; auto g = check_absent(R, u); if (g && !R.fail(*g)) return; }
@@ -94,9 +117,26 @@ static void stage_random(Run &R) {
     });
 }
 
+static void stage_sequences(Run &R) {
+    rc_run(R, "C11 the answer for a label does not depend on earlier lookups", 2.0, [&](Src &s) -> std::optional<Failure> {
+        std::vector<Bytes> seq; uint32_t n = 2 + s.pick(10);
+        for (uint32_t i = 0; i < n; i++) {
+            uint32_t k = s.pick(8); Bytes l;
+            if (k < 3) l = s.of(T.alist);
+            else if (k < 5 && !seq.empty()) { const Bytes &b = seq[s.pick((uint32_t) seq.size())]; uint32_t a = s.pick((uint32_t) b.size()), m = 1 + s.pick((uint32_t) (b.size() - a)); l = b.substr(a, m); }   // part of an earlier one
+            else if (k < 6 && !seq.empty()) { l = seq[s.pick((uint32_t) seq.size())]; if (s.chance(1, 2)) l += "abcdefghijklmnopqrstuvwxyz0123456789-"[s.pick(37)]; }                                   // repeat / extension
+            else if (k < 7) { l = s.of(T.alist); for (auto &c : l) if (s.chance(1, 3)) c = (char) toupper((unsigned char) c); }
+            else l = gen::label(s, 1 + s.pick(14));
+            seq.push_back(l);
+        }
+        return check_seq(R, seq);
+    });
+}
+
 static std::optional<Failure> replay(Run &R, const Case &c) {
     if (c.geti("kind") == 0) return check_row(R, (size_t) c.geti("row"));
     if (c.geti("kind") == 1) return check_absent(R, c.getb("label"));
+    if (c.geti("kind") == 3) { std::vector<Bytes> seq; std::string t; std::istringstream is(c.gets("seq")); while (std::getline(is, t, ',')) seq.push_back(unhex(t)); return check_seq(R, seq); }
     Run R2; R2.a = R.a; R2.a.worker = 0; R2.a.nworkers = 1 << 30; // only the list comparison
     stage_rows(R2);
     if (R2.failed()) return R2.failures[0];
@@ -104,6 +144,6 @@ static std::optional<Failure> replay(Run &R, const Case &c) {
 }
 
 int main(int argc, char **argv) {
-    return std_main(argc, argv, "C11", {{"rows", stage_rows}, {"random", stage_random}}, replay, [] { return g_case; },
+    return std_main(argc, argv, "C11", {{"rows", stage_rows}, {"random", stage_random}, {"sequences", stage_sequences}}, replay, [] { return g_case; },
         [](Run &R) { C = new Consts(A); return T.load(R.a.datadir); }, [] { delete C; });
 }
